@@ -182,6 +182,16 @@ class Interp(MiniEval):
             return Closure(e, self)
         if isinstance(e, ast.Starred):
             raise Unsupported('starred expression')
+        if isinstance(e, ast.Subscript) and isinstance(e.ctx, ast.Load):
+            base = self.ev(e.value)
+            if isinstance(base, (dict, list, tuple, str)) and not isinstance(e.slice, ast.Slice):
+                k = self.ev(e.slice)
+                try:
+                    return base[k]
+                except (KeyError, IndexError) as x:
+                    raise Raised(type(x).__name__)
+                except TypeError:
+                    raise Raised('TypeError')
         return super().ev(e)
 
     def getattr(self, base, attr, text=''):
@@ -423,13 +433,25 @@ class Interp(MiniEval):
             else:
                 args = [first] + args
         sub.bind_params(fn.args, args, dict(kwargs))
-        if any(isinstance(n, (ast.Yield, ast.YieldFrom)) for n in ast.walk(fn)):
-            raise Unsupported(f'generator {fn.name}')
+        from .srcmodel import walk_no_nested
+        if any(isinstance(n, (ast.Yield, ast.YieldFrom)) for n in walk_no_nested(fn)):
+            # a generator is run eagerly: its items are collected (sound for the pure stubs the tables use)
+            sub.yielded = []
+            sub.run(fn.body)
+            return list(sub.yielded)
         return sub.run(fn.body)
 
     # ---- statements --------------------------------------------------------------------------------------
     def stmt(self, st):
         self.shared['steps'] += 1
+        if isinstance(st, ast.Expr) and isinstance(st.value, (ast.Yield, ast.YieldFrom)):
+            if getattr(self, 'yielded', None) is None:
+                raise Unsupported('yield outside an interpreted generator')
+            if isinstance(st.value, ast.Yield):
+                self.yielded.append(self.ev(st.value.value) if st.value.value is not None else None)
+            else:
+                self.yielded.extend(list(self.ev(st.value.value)))
+            return
         if isinstance(st, (ast.FunctionDef,)):
             self.env[st.name] = Closure(st, self)
             return
